@@ -348,3 +348,18 @@ def enum_decision_table():
                     c[k] = v
             out.append(c)
     return out
+
+
+def enum_medium_headers():
+    """Thorough tier: every list of one or two specs over positions {0,1,2,5,20,39,40,41} in the three
+    forms (incl. last < first), no whitespace: 80 + 6400 headers."""
+    pos = ['0', '1', '2', '5', '20', '39', '40', '41']
+    specs = []
+    for a in pos:
+        specs.append(a + '-')
+        specs.append('-' + a)
+        for b in pos:
+            specs.append(a + '-' + b)
+    out = ['bytes=' + s for s in specs]
+    out += ['bytes=%s,%s' % (a, b) for a in specs for b in specs]
+    return out
